@@ -382,10 +382,12 @@ def hitmiss(input, Bc, out=None, output=None):
     # dtypes are different from those implemented in `internal._get_output`
 
     if out is None:
-        out = np.empty_like(input)
+        out = np.empty(input.shape, input.dtype)
     else:
         if out.shape != input.shape:
             raise ValueError('mahotas.hitmiss: out must be of same shape as input')
+        if not out.flags.c_contiguous:
+            raise ValueError('mahotas.hitmiss: out must be a C-contiguous array')
         if out.dtype != input.dtype:
             if out.dtype == np.bool_ and input.dtype == np.uint8:
                 out = out.view(np.uint8)
